@@ -66,6 +66,9 @@ type interpreter struct {
 	natives          map[*value]any // lifted AST node -> native object (for native accessors)
 	harness          *harnessState
 	depthIsViolation bool
+	tests            map[*value]*tState
+	testLog          []string
+	testOutcomes     []TestOutcome
 }
 
 type deferred struct {
@@ -124,7 +127,7 @@ func (fr *frame) runDefer(d *deferred) {
 			r := recover()
 			switch r.(type) {
 			case targetPanic, rtErr:
-			case pathAbort:
+			case pathAbort, testFatal:
 				panic(r)
 			default:
 				panic(pathAbort{"engine", fmt.Sprintf("%v (in deferred call)\n%s", r, debug.Stack())})
@@ -574,6 +577,8 @@ func runFrame(fr *frame) {
 		switch r := r.(type) {
 		case pathAbort:
 			panic(r) // end of path: unwind without running target defers
+		case testFatal:
+			panic(r) // t.Fatal in a self-test: unwinds to the test driver
 		case targetPanic, rtErr:
 			// target-level panic
 		case runtime.Error:
